@@ -58,7 +58,7 @@ def run(m, chk):
         "on every return site the returned curve depends on both operands, and on the weights of an operand unless the path established `weights is None` (DEP-MAY). "
         "Pointwise equality of the values and the correctness of the combined knot vector are not decided."
     )
-    chk.decides = ["PURE", "FRESH", "GATE(limits ⇒ ValueError)", "DELEGATE", "DEP-MAY per return site"]
+    chk.decides = ["PURE", "FRESH", "GATE(limits ⇒ ValueError)", "DELEGATE", "DEP-MAY per return site", 'POLY-ONLY (polynomial helpers only under weights is None)', 'INTERVAL']
     chk.not_decided = ["(A op B)(u) = A(u) op B(u) as values", "correctness of the combined knot vector (fails for different degrees with interior knots — consequence of the | defect, DESIGN §5)"]
     for name in ALL:
         q = B + name
